@@ -6,6 +6,7 @@ package layout
 
 import (
 	"sort"
+	"strings"
 
 	"github.com/tsawler/tabula/model"
 	"github.com/tsawler/tabula/text"
@@ -413,7 +414,7 @@ func (a *Analyzer) buildElementTree(result *AnalysisResult) []LayoutElement {
 			// Mark overlapping paragraphs as consumed
 			if result.Paragraphs != nil {
 				for j, para := range result.Paragraphs.Paragraphs {
-					if bboxOverlaps(heading.BBox, para.BBox) {
+					if bboxOverlaps(heading.BBox, para.BBox) && textCarriedBy(para.Text, heading.Text) {
 						consumedParaIndices[j] = true
 					}
 				}
@@ -437,7 +438,7 @@ func (a *Analyzer) buildElementTree(result *AnalysisResult) []LayoutElement {
 			// Mark overlapping paragraphs as consumed
 			if result.Paragraphs != nil {
 				for j, para := range result.Paragraphs.Paragraphs {
-					if bboxOverlaps(list.BBox, para.BBox) {
+					if bboxOverlaps(list.BBox, para.BBox) && textCarriedBy(para.Text, elem.Text) {
 						consumedParaIndices[j] = true
 					}
 				}
@@ -483,6 +484,16 @@ func getListText(list *List) string {
 		text += item.Prefix + " " + item.Text + "\n"
 	}
 	return text
+}
+
+// textCarriedBy reports whether the element text holds the paragraph's text
+// (white space aside). A paragraph is only represented by a heading or list
+// element - and left out of the elements for that reason - when its words are
+// in that element: a large heading box can also reach over a neighbouring
+// paragraph that says something else.
+func textCarriedBy(paraText, elementText string) bool {
+	squash := func(s string) string { return strings.Join(strings.Fields(s), "") }
+	return strings.Contains(squash(elementText), squash(paraText))
 }
 
 // bboxOverlaps reports whether two bounding boxes overlap significantly
